@@ -160,29 +160,32 @@ Print Assumptions c12_widen_from_default.
 
 (* write_or_expand returns after at most 28 calls of `write`, PROVIDED the layout succeeds at the unlimited width
    (hypothesis Hw: the layout functions of codegen/ast.rs are not modelled here -- that they return Some at
-   u16::MAX is exercised by the probe streams, not proved) and tab_len * indent fits u16 *)
+   u16::MAX is exercised by the probe streams, not proved) *)
 Theorem c12_write_or_expand_terminates : forall (T : Type) (write : wopt -> option T),
   (forall o, max_width o = u16_max -> write o <> None) ->
-  forall o, 2 <= max_width o <= u16_max -> 0 <= indent o <= indent_max ->
-  exists s, expand write 28 o = Ret (Some s).
+  forall o, 2 <= max_width o <= u16_max -> exists s, expand write 28 o = Ret (Some s).
 Proof. exact expand_terminates. Qed.
 Print Assumptions c12_write_or_expand_terminates.
 
-(* Full statement (FALSE, finding C12-N12): forall o, 0 <= indent o <= u16_max -> reset_line o <> Panic.
-   `self.tab.len() as u16 * self.indent` is an unchecked u16 multiplication: indent 32768 (32768 nested modules,
-   a 400 kB source) overflows it. *)
-Theorem c12_reset_line_total_refuted : exists o, 0 <= indent o <= u16_max /\ reset_line o = Panic.
-Proof. exists (WOpt 50 50 32768). split; [split; discriminate | vm_compute; reflexivity]. Qed.
-Print Assumptions c12_reset_line_total_refuted.
-
-Theorem c12_reset_line_total_partial : forall o, 0 <= indent o <= indent_max -> reset_line o <> Panic.
+(* Full strength since commit b4fb037 ("the formatter's indentation arithmetic saturates instead of overflowing u16
+   at 32768 nesting levels"; finding C12-N12).  Before, `tab.len() as u16 * indent` was the unchecked product:
+   reset_line panicked exactly for indent > 32767 (the old c12_reset_line_total_refuted / _partial /
+   c12_reset_line_panics_above).  Now, for EVERY option value: *)
+Theorem c12_reset_line_total : forall o, reset_line o <> Panic.
 Proof. exact reset_line_total. Qed.
-Print Assumptions c12_reset_line_total_partial.
+Print Assumptions c12_reset_line_total.
 
-(* the classifier of C12-N12 is exact: reset_line panics for every deeper indent *)
-Theorem c12_reset_line_panics_above : forall o, indent_max < indent o -> reset_line o = Panic.
-Proof. exact reset_line_panics. Qed.
-Print Assumptions c12_reset_line_panics_above.
+(* ... at the unlimited width the line can always be reset (so the retry of write_or_expand cannot be refused there) *)
+Theorem c12_reset_line_unlimited : forall o, max_width o = u16_max ->
+  exists r, reset_line o = Ret (Some (WOpt u16_max r (indent o))) /\ 0 <= r.
+Proof. exact reset_line_unlimited. Qed.
+Print Assumptions c12_reset_line_unlimited.
+
+(* ... and the saturating indent steps keep the indent a u16 *)
+Theorem c12_indent_steps_in_range : forall o, 0 <= indent o <= u16_max ->
+  0 <= indent (indent_in o) <= u16_max /\ 0 <= indent (indent_out o) <= u16_max.
+Proof. exact indent_in_out_range. Qed.
+Print Assumptions c12_indent_steps_in_range.
 
 Local Close Scope Z_scope.
 
@@ -221,7 +224,7 @@ Qed.
 Print Assumptions c12_composed_total_partial.
 
 (* ------------------------------------------------------------------ sites added since the last baseline *)
-(* Model/SitesBaseline.v was re-recorded on /repo d7151cc; every row that grew was read, and the added site is
+(* Model/SitesBaseline.v was re-recorded on /repo e6f83f8; every row that grew was read, and the added site is
    restated with its guard in Model/ReviewedSites.v (text pinned by c12_modelled_text_unchanged). *)
 Theorem c12_reviewed_names_relative : forall (A : Type) (found : ident A -> bool) module_path i,
   resolve_relative found module_path i <> Panic.
@@ -291,3 +294,8 @@ Example c12_ex_names_core_relative :
   resolve_core_relative (fun i => Nat.eqb (length (path i)) 0) [7; 8] (Ident [] 9) = Ret (Ident [] 9, true) /\
   resolve_core_relative (fun _ => false) [7; 8] (Ident [] 9) = Ret (Ident [] 9, false).
 Proof. split; vm_compute; reflexivity. Qed.
+(* the repaired reset_line at the indent that used to panic (finding C12-N12), and the unchecked product there *)
+Local Open Scope Z_scope.
+Example c12_ex_indent_32768 : reset_line (WOpt 50 50 32768) = Ret None /\
+  reset_line (WOpt u16_max 0 32768) = Ret (Some (WOpt u16_max 0 32768)) /\ mul16 2 32768 = Panic.
+Proof. repeat split; vm_compute; reflexivity. Qed.
